@@ -695,6 +695,9 @@ class Ops(object):
                 it.raise_(type(e).__name__, str(e))
         if op == 'Add' and isinstance(a, str) and isinstance(b, str):
             return a + b
+        from .values import OpaqueText
+        if op == 'Add' and all(isinstance(x, (str, SKey, OpaqueText)) for x in (a, b)):
+            return OpaqueText()
         if not has_sym(a) and not has_sym(b):
             import operator
             f = {'Add': operator.add, 'Sub': operator.sub, 'Mult': operator.mul, 'Div': operator.truediv,
